@@ -110,10 +110,10 @@ theorem C03_flushAll_terminates_quiet_entry {U Q : Nat} (hfb : FlushOK fb)
     (hq : QuietFrom 0 env) (hc : CbTame 0 U Q cbEff) (c u q : Nat) :
     (iter env cbEff fb ((1 + 4 * U + Q) * c + 4 * u + q + 8) (dstart c u q)).st.pc = .Done := by
   apply iter_done_of_measure_le hq hc hfb _ _ (Nat.zero_le _) (Nat.zero_le _)
-  simp only [measure, dstart, start, overhead, hA, cbCost]
-  by_cases h : 0 < c ∨ 0 < u
-  · rw [if_pos h]; omega
-  · rw [if_neg h]; omega
+  have h8 : hA c u ≤ 8 := by unfold hA; split <;> omega
+  show cbCost U Q * c + 4 * u + q + 0 + hA c u ≤ (1 + 4 * U + Q) * c + 4 * u + q + 8
+  have : cbCost U Q = 1 + 4 * U + Q := rfl
+  rw [this]; omega
 
 /-! ## 4. the hypotheses are needed -/
 
